@@ -214,6 +214,12 @@ class HamiltonianChain(MarkovChain):
         for i in range(self.n_parameters):
             # step relative to the parameter value, or an absolute step if the value is zero
             dt = t[i] * 1e-5 if t[i] != 0.0 else 1e-5
+            if self.bounds is not None:
+                # never evaluate the posterior outside the bounds: limit the step to
+                # half the allowed width and step inwards when next to the upper bound
+                dt = min(abs(dt), 0.5 * self.bounds.width[i])
+                if t[i] + dt > self.bounds.upper[i]:
+                    dt = -dt
             t_step = t.copy()
             t_step[i] += dt
             G[i] = (self.posterior(t_step) * self.inv_temp - p) / dt
